@@ -14,6 +14,7 @@ package convert
 //@ func convert.unify
 //@   tags C20 C09
 //@   frame_only
+//@   no_panic_assumed
 //@   requires (forall ((j Int)) (! (=> (and (trig j) (<= 0 j) (< j (Slice.len types))) (wf_ty (ty_at types j))) :pattern ((trig j))))
 //@   fresh result.1 when (not (= (Slice.ptr result.1) 0))
 //@   ensures[assumed] wf_result: (or (= result.0 $G<cty.NilType>) (wf_ty result.0))
@@ -207,3 +208,22 @@ package convert
 //@   calls ret
 //@     may_panic
 //@     requires[C08,owed] unmarked_input: (not (is_marked arg0))
+//
+// dynamicReplace (C08): the type an unknown or null result is given. It never panics - every type accessor is
+// reached only for the kind it is defined on, whatever the relation between the two types (the conversion
+// tables offer map -> object conversions whose optional attributes do not fit the element type, so the
+// two types need not have the same shape) - and it returns a well-formed type.
+//@ func convert.dynamicReplace
+//@   tags C08
+//@   requires (and (or (is_nil_ty in) (wf_ty in)) (wf_ty out))
+//@   ensures[C08] wf: (wf_ty result)
+// a given type of another shape leaves the wanted type as it is
+//@   ensures[C08] object_mismatch: (=> (and (not (is_nil_ty in)) (not (is_dyn_ty in)) (is_obj_ty out) (not (is_map_ty in)) (not (is_obj_ty in))) (= result out))
+//@   ensures[C08] tuple_mismatch: (=> (and (not (is_nil_ty in)) (not (is_dyn_ty in)) (is_tuple_ty out) (or (not (is_tuple_ty in)) (not (= (tuple_len in) (tuple_len out))))) (= result out))
+//@   ensures[C08] dynamic_in: (=> (or (is_nil_ty in) (is_dyn_ty in)) (= result out))
+//@   let tysel (select $H<Arr<cty.Type>> (Slice.ptr types))
+//@   loop 1 invariant (forall ((j Int)) (! (=> (and (trig j) (<= 0 j) (< j (Slice.len types))) (wf_ty (select tysel (+ (Slice.off types) j)))) :pattern ((trig j))))
+//@   let om (select $H<MapC<String~cty.Type>> outTypes)
+//@   loop 2 invariant (and (MapC<String~cty.Type>.ok om) (forall ((k String)) (! (=> (select (MapC<String~cty.Type>.dom om) k) (wf_ty (select (MapC<String~cty.Type>.val om) k))) :pattern ((select (MapC<String~cty.Type>.dom om) k)))))
+//@   loop 3 invariant (and (MapC<String~cty.Type>.ok om) (forall ((k String)) (! (=> (select (MapC<String~cty.Type>.dom om) k) (wf_ty (select (MapC<String~cty.Type>.val om) k))) :pattern ((select (MapC<String~cty.Type>.dom om) k)))))
+//@   loop 4 invariant (and (<= 0 ix) (= (Slice.off types) 0) (forall ((j Int)) (! (=> (and (trig j) (<= 0 j) (< j (Slice.len types))) (wf_ty (select tysel (+ (Slice.off types) j)))) :pattern ((trig j)))))
